@@ -94,6 +94,19 @@ def gen_cases(ctx):
             for ty in ("float", "str"):
                 cases.append({"op": "read", "reader": reader, "table": t, "restrict": ["x"], "cast": {"y": ty, "x": "float"}, "ragged": False,
                               "encoding": "utf-8", "sep": ",", "header": True})
+    # converters that look a cell up in a table (dict / Enum lookups raise KeyError for an unknown cell): the typed read
+    # must do what reading everything and converting afterwards does — convert, or raise the same kind of error
+    for reader in ("lod_json", "lod_csv"):
+        for complete in (True, False):
+            for ragged in (False, True):
+                cases.append({"op": "lookup", "reader": reader, "complete": complete, "ragged": ragged and reader == "lod_json",
+                              "table": {"names": ["name", "code"], "nrow": 4,
+                                        "cols": {"name": ["Anna", "Bo", "Cy", "Di"], "code": ["FI", "SE", "XX", "FI"]}},
+                              "restrict": [], "cast": {}, "encoding": "utf-8", "sep": ",", "header": True})
+    # Parquet files written by pandas carry pandas' own schema metadata (and, with a labelled index, the index as a column)
+    for index in ("default", "labelled"):
+        for restrict in (["temp"], ["temp", "hum"], []):
+            cases.append({"op": "pandas_parquet", "index": index, "restrict": restrict})
     n = 300 if ctx.tier == "quick" else 4000
     for _ in range(n):
         cases.append(gen_case(rng, ctx.tier))
@@ -218,7 +231,57 @@ def call(case, path, which, restrict=None, cast=None):
     raise ValueError(reader)
 
 
+LOOKUP = {"FI": "Finland", "SE": "Sweden"}
+
+
+def impl_special(case):
+    import dataiter as di
+    d = tempfile.mkdtemp(prefix="verif-c14-")
+    res = {}
+    try:
+        if case["op"] == "lookup":
+            table = dict(LOOKUP, XX="Xanadu") if case["complete"] else dict(LOOKUP)
+            path = write_file(case, d)
+            kw = {"sep": ",", "header": True} if case["reader"] == "lod_csv" else {}
+            readers = [di.ListOfDicts.read_csv] if case["reader"] == "lod_csv" else [di.ListOfDicts.read_json, di.read_json]
+            for i, f in enumerate(readers):
+                def run(thunk):
+                    try:
+                        return ["ok", [dict(x) for x in thunk()]]
+                    except Exception as e:
+                        return ["raised", type(e).__name__]
+
+                def cast_after():
+                    data = f(path, **kw)
+                    for item in data:
+                        if "code" in item:
+                            item["code"] = table[item["code"]]
+                    return data
+                res[f"typed{i}"] = run(lambda: f(path, types={"code": table.__getitem__}, **kw))
+                res[f"after{i}"] = run(cast_after)
+        else:
+            import pandas as pd
+            pdf = pd.DataFrame({"station": ["HEL", "TMP", "OUL"], "temp": [1.5, -2.0, -7.5], "hum": [80, 70, 60]})
+            if case["index"] == "labelled":
+                pdf = pdf.set_index("station")
+            path = os.path.join(d, "p.parquet")
+            pdf.to_parquet(path)
+            cols = case["restrict"]
+            for i, f in enumerate((di.DataFrame.read_parquet, di.read_parquet)):
+                part = f(path, columns=cols)
+                full = f(path)
+                res[f"part{i}"] = canon(part)
+                res[f"sel{i}"] = canon(full.select(*cols) if cols else full)
+    except Exception as e:
+        res["err"] = f"{type(e).__name__}: {e}"
+    finally:
+        shutil.rmtree(d, ignore_errors=True)
+    return res
+
+
 def impl(case):
+    if case["op"] in ("lookup", "pandas_parquet"):
+        return impl_special(case)
     d = tempfile.mkdtemp(prefix="verif-c14-")
     res = {}
     try:
@@ -252,6 +315,8 @@ def impl(case):
 
 
 def model_requests(case, obs):
+    if case["op"] in ("lookup", "pandas_parquet"):
+        return []
     reader = case["reader"]
     if reader in ("df_json", "geojson"):
         return [("read_restrict", {"kind": "frame", "records": [[[k, json.dumps(v)] for k, v in r.items()] for r in records_of(case)],
@@ -293,7 +358,26 @@ def same_map(a, b):
     return True
 
 
+def judge_special(ctx, case, obs):
+    ctx.count(case["op"])
+    if "err" in obs:
+        ctx.violation("oracle", f"{case['op']}:raises", f"the comparison itself failed: {obs['err']}", case, obs)
+    elif case["op"] == "lookup":
+        for i in range(2):
+            if f"typed{i}" in obs and obs[f"typed{i}"] != obs[f"after{i}"]:
+                ctx.violation("oracle", f"typed-read-differs:{case['reader']}:lookup-converter",
+                              f"read with types= gives {obs[f'typed{i}']}, reading everything and converting afterwards gives {obs[f'after{i}']}", case, obs)
+    else:
+        for i in range(2):
+            if obs[f"part{i}"] != obs[f"sel{i}"]:
+                ctx.violation("oracle", "restrict-differs:df_parquet:pandas-written",
+                              f"read_parquet(columns={case['restrict']}) gives {str(obs[f'part{i}'])[:200]}, read-all-then-select gives {str(obs[f'sel{i}'])[:200]}", case, obs)
+    ctx.case_done(case, True)
+
+
 def judge(ctx, case, obs, mouts):
+    if case["op"] in ("lookup", "pandas_parquet"):
+        return judge_special(ctx, case, obs)
     import dataiter as di
     reader = case["reader"]
     ctx.count(reader)
